@@ -34,7 +34,7 @@ def lenientMatch (p : Prog) (o : Obs) : Bool :=
   (List.range 8).any fun k =>
     match runSkip p FUEL (k + 1) with
     | .invalid | .outOfFuel | .stuck | .unsupported => false
-    | m => (judge m o).1
+    | m => let (pr, _, oobNoRevert) := judge m o; pr || oobNoRevert
 
 def sizeClass (n : Nat) : String :=
   if n = 0 then "0" else if n ≤ 2 then "1-2" else if n ≤ 8 then "3-8" else "9+"
@@ -63,13 +63,17 @@ def answerProg (kind : String) (rest : List String) (itoks : List String) : Stri
           if (pd || lenientMatch p d) && (pr || lenientMatch p r) then " why=dead-trap-eliminated" else
           if !pd && !pr then " why=both-differ" else if !pd then " why=debug-differs" else " why=release-differs"
         s!"{ms} agree={b01 (ad && ar)} prop={b01 (pd && pr)} skip=0 cls={cls} kind={kind} nlogs={sizeClass (outcomeLogs m).length}{why}"
-      | _, _ => s!"{ms} agree=0 prop=1 skip=0 cls={cls} why=impl-unparsed"
+      | _, _ =>
+        -- the compiler produced no bytecode (ICE / hang / generator slip): C01 speaks about produced bytecode
+        if itoks.head? = some "nobytecode" then s!"{ms} agree=1 prop=1 skip=1 cls={cls} kind={kind} why=no-bytecode"
+        else s!"{ms} agree=0 prop=1 skip=0 cls={cls} why=impl-unparsed"
 
 /-- e2e stream: `e2e <name> <expected> ;; <class> debug=<got> release=<got>`; no model involved: the maintainer's
 expected value is the prescription. -/
 def answerE2e (exp : String) (itoks : List String) : String :=
   match kvLookup "debug" itoks, kvLookup "release" itoks with
   | some d, some r =>
+    if d.startsWith "builderr" || r.startsWith "builderr" then s!"{exp} agree=1 prop=1 skip=1 cls=e2e kind=e2e why=no-bytecode" else
     let ok := d = exp && r = exp
     s!"{exp} agree={b01 ok} prop={b01 ok} skip=0 cls=e2e kind=e2e"
   | _, _ => s!"{exp} agree=0 prop=1 skip=0 cls=e2e why=impl-unparsed"
